@@ -154,6 +154,24 @@ type target struct {
 // CheckObject walks an object spec against the struct that represents it.
 func (w *World) CheckObject(fm *FileModel, s *Spec, structName string, path string) []Issue {
 	var out []Issue
+	if len(s.AnyOf) > 0 {
+		for i, b := range s.AnyOf {
+			if len(b.Props) > 0 {
+				name := ""
+				for _, st := range fm.StructsWithField(b.Props[0].Name, w.tagKey()) {
+					if strings.HasSuffix(st.Name, fmt.Sprintf("_%d", i)) {
+						name = st.Name
+					}
+				}
+				if name == "" {
+					out = append(out, Issue{Rule: "A-ANYOF", Construct: "anyOf branch without its own type", Msg: fmt.Sprintf("%s: branch %d of the anyOf has no struct type of its own (suffix _%d)", path, i, i)})
+					continue
+				}
+				out = append(out, w.CheckObject(fm, b, name, fmt.Sprintf("%s|%d", path, i))...)
+			}
+		}
+		return out
+	}
 	S := fm.Structs[structName]
 	if S == nil {
 		// locate by the first property's tag
@@ -173,7 +191,7 @@ func (w *World) CheckObject(fm *FileModel, s *Spec, structName string, path stri
 	// required
 	out = append(out, w.checkRequired(fm, s, S, path)...)
 	for _, p := range s.Props {
-		_, F := fm.FindField(p.Name, w.tagKey())
+		F := S.FieldByTag(AtomText(p.Name), w.tagKey())
 		ppath := path + "." + p.Label
 		if F == nil {
 			out = append(out, Issue{Rule: "A-TAG", Construct: "property without a field bound to its name", Msg: ppath + ": no field of " + S.Name + " carries the property's exact name in its " + w.tagKey() + " tag"})
@@ -286,10 +304,36 @@ func typeMatches(want, got string) bool {
 	return false
 }
 
+func isFormatType(t string) bool {
+	switch t {
+	case "time.Time", "types.SerializableDate", "types.SerializableTime", "netip.Addr":
+		return true
+	}
+	return false
+}
+
 func (w *World) checkFieldType(fm *FileModel, p *Prop, F *Field, path string) []Issue {
 	base, nillable := w.goBaseType(p.Spec)
 	if base == "?" {
 		return nil
+	}
+	// a definition reference (and a property-less object) is represented by a declared type whose
+	// underlying type is the base type; self-decoding format types must not be wrapped (a defined
+	// type does not inherit UnmarshalJSON)
+	viaDecl := (p.Spec.Ref != "" || (p.Spec.Kind == "object" && len(p.Spec.Props) == 0 && len(p.Spec.AnyOf) == 0)) && base != "NAMED" && !isFormatType(base)
+	if viaDecl {
+		ft, _ := stripPtr(F.Type)
+		td := fm.Types[ft]
+		if td == nil {
+			return []Issue{{Rule: "A-MAP", Construct: "reference not represented by a declared type (" + specShape(p.Spec) + ")", Msg: fmt.Sprintf("%s: field %s has type %s, expected a declared type standing for the definition", path, F.Name, F.Type)}}
+		}
+		if strings.HasPrefix(base, "[]") && strings.Contains(td.Type, "struct {") {
+			return []Issue{{Rule: "A-MAP", Construct: "array-of-objects definition declared with an anonymous element struct", Msg: fmt.Sprintf("%s: type %s (an array-of-objects definition) is declared with an anonymous element struct: the elements get no type of their own and therefore no unmarshaler, so their required/constraint checks are lost while the same array written inline keeps them", path, ft)}}
+		}
+		if !typeMatches(base, td.Type) && !(strings.HasPrefix(base, "map[string]") && strings.HasPrefix(td.Type, "map[string]")) {
+			return []Issue{{Rule: "A-MAP", Construct: "declared type of " + specShape(p.Spec), Msg: fmt.Sprintf("%s: type %s is declared as %s, but the definition is a %s and must decode as %s", path, ft, td.Type, specShape(p.Spec), base)}}
+		}
+		base = ft
 	}
 	wantPtr := false
 	switch {
@@ -304,6 +348,11 @@ func (w *World) checkFieldType(fm *FileModel, p *Prop, F *Field, path string) []
 	}
 	if typeMatches(want, F.Type) {
 		return nil
+	}
+	if p.Spec.Ref != "" && isFormatType(base) {
+		if ft, _ := stripPtr(F.Type); fm.Types[ft] != nil {
+			return []Issue{{Rule: "A-MAP", Construct: "format type behind a definition reference is wrapped in a declared type", Msg: fmt.Sprintf("%s: field %s has type %s, declared as `type %s %s`: a defined type does not inherit %s's UnmarshalJSON, so every valid %s string is rejected ('cannot unmarshal string into ...') while the same schema written inline decodes", path, F.Name, F.Type, ft, fm.Types[ft].Type, base, p.Spec.Format)}}
+		}
 	}
 	return []Issue{{Rule: "A-MAP", Construct: fmt.Sprintf("Go type for %s required=%v default=%v", specShape(p.Spec), p.Required, p.Spec.Default != ""),
 		Msg: fmt.Sprintf("%s: field %s has type %s, but a %s property (required=%v, default=%q) must be %s so that wrong JSON types are rejected and null/absence is representable",
@@ -334,11 +383,15 @@ func specShape(s *Spec) string {
 func (w *World) checkValue(fm *FileModel, s *Spec, S *Struct, F *Field, path string) []Issue {
 	var out []Issue
 	exp := w.ExpectedRejects(s)
+	skipRejects := w.Cfg.MinSizedInts && s.Kind == "integer" // bound removal under --min-sized-ints is decided by C15
 	ft, isPtr := stripPtr(F.Type)
 	named := fm.Types[ft]
 	what := path + " (" + specShape(s) + ")"
 	primitiveNamed := named != nil && fm.Structs[ft] == nil && s.Kind != "object" && s.Enum == ""
 	for _, mn := range w.formats() {
+		if skipRejects {
+			break
+		}
 		if primitiveNamed && s.Ref != "" {
 			// checks live on the named type; the struct must not re-check
 			m := fm.Methods[ft+"."+mn]
@@ -357,7 +410,11 @@ func (w *World) checkValue(fm *FileModel, s *Spec, S *Struct, F *Field, path str
 		m := fm.Methods[S.Name+"."+mn]
 		if m == nil {
 			if len(exp) > 0 {
-				out = append(out, Issue{Rule: "A-REJ", Construct: "struct with constrained fields has no unmarshaler", Msg: fmt.Sprintf("%s: %s has no %s although %d constraint(s) are stated", what, S.Name, mn, len(exp))})
+				var kws []string
+				for _, e := range exp {
+					kws = append(kws, e.Kw)
+				}
+				out = append(out, Issue{Rule: "A-REJ", Construct: "no unmarshaler although constraints are stated (" + strings.Join(kws, ",") + ")", Msg: fmt.Sprintf("%s: %s has no %s although %d constraint(s) are stated", what, S.Name, mn, len(exp))})
 			}
 			continue
 		}
@@ -369,7 +426,10 @@ func (w *World) checkValue(fm *FileModel, s *Spec, S *Struct, F *Field, path str
 		out = append(out, w.CheckObject(fm, s, ft, path)...)
 	case s.Kind == "array":
 		inner := s
-		t := ft
+		t := fm.Underlying(ft)
+		if strings.Contains(t, "struct {") {
+			break // reported by the type oracle (anonymous element struct)
+		}
 		for inner != nil && inner.Kind == "array" {
 			t = strings.TrimPrefix(t, "[]")
 			inner = inner.Items
